@@ -7,6 +7,8 @@ use vstd::arithmetic::power::*;
 use vstd::arithmetic::power2::*;
 use vstd::arithmetic::div_mod::*;
 use vstd::arithmetic::mul::*;
+use vstd::std_specs::bits::*;
+use vstd::bits::*;
 use crate::speclib::*;
 use crate::speclib_bits::*;
 use crate::l4_invmod::*;
@@ -373,5 +375,340 @@ pub proof fn lemma_set_bit_fresh(x: int, i: nat, c: int, r: int)
 }
 
 // ---------------------------------------------------------------- limb-wise OR with a single disjoint bit
+
+// ------------------------------------------------------------------------------------------------
+// single-bit writes (BoxedUint::set_bit / set_bit_vartime, l8_boxed_invmod.rs). COPIES of the private lemmas lemma_bit_of_sum,
+// lemma_val_update, lemma_word_set_bit, lemma_set_bit_value of l2_shift.rs (lemma_val_bit re-derived from the pub lemma_val_mod).
+// ------------------------------------------------------------------------------------------------
+/// bit e+r of  l + (a + h*2^64) * 2^e  is bit r of a   (0 <= l < 2^e, r < 64)
+pub proof fn lemma_bit_of_sum(l: int, a: int, h: int, e: nat, r: nat)
+    requires 0 <= l < p2(e), a >= 0, h >= 0, r < 64
+    ensures ((l + (a + h * B()) * p2(e)) / p2(e + r)) % 2 == (a / p2(r)) % 2
+{
+    let pe = p2(e); let pr = p2(r);
+    let w = a + h * B();
+    let v = l + w * pe;
+    lemma_pow2_pos(e); lemma_pow2_pos(r); lemma_pow2_adds(e, r);
+    assert(w >= 0) by (nonlinear_arith) requires a >= 0, h >= 0, w == a + h * B(), B() > 0;
+    assert(w * pe >= 0) by (nonlinear_arith) requires w >= 0, pe > 0;
+    lemma_div_denominator(v, pe, pr);
+    lemma_fundamental_div_mod_converse(v, pe, w, l);
+    assert(v / pe == w);
+    let k = p2((64 - r) as nat);
+    lemma_pow2_adds(r, (64 - r) as nat); lemma_pow2_64();
+    assert(pr * k == B());
+    let q = a / pr; let m = a % pr;
+    lemma_fundamental_div_mod(a, pr); lemma_mod_bound(a, pr);
+    assert(w == (q + h * k) * pr + m) by (nonlinear_arith) requires w == a + h * B(), a == pr * q + m, pr * k == B();
+    lemma_fundamental_div_mod_converse(w, pr, q + h * k, m);
+    assert(w / pr == q + h * k);
+    let k2 = p2((63 - r) as nat);
+    lemma_pow2_adds(1, (63 - r) as nat); lemma2_to64();
+    assert(k == 2 * k2);
+    assert(q + h * k == 2 * (h * k2) + q) by (nonlinear_arith) requires k == 2 * k2;
+    lemma_mod_multiples_vanish(h * k2, q, 2);
+    assert(v / p2(e + r) == (v / pe) / pr);
+}
+
+/// bit 64j+r of val(s, n) is bit r of limb j
+pub proof fn lemma_val_bit(s: Seq<Limb>, n: nat, j: nat, r: nat)
+    requires j < n, r < 64
+    ensures (val(s, n) / p2(64 * j + r)) % 2 == (s[j as int].0 as int / p2(r)) % 2
+{
+    let v = val(s, n); let p1 = bp(j + 1); let p = bp(j); let a = s[j as int].0 as int;
+    lemma_val_mod(s, j + 1, n);
+    lemma_bp_succ(j); lemma_bp_succ(j + 1);
+    lemma_fundamental_div_mod(v, p1);
+    let h = v / p1;
+    lemma_val_bound(s, n);
+    lemma_div_pos_is_pos(v, p1);
+    assert(val(s, j + 1) == val(s, j) + a * p);
+    assert(p1 * h == (h * B()) * p) by (nonlinear_arith) requires p1 == B() * p;
+    assert((a + h * B()) * p == a * p + (h * B()) * p) by (nonlinear_arith);
+    lemma_val_bound(s, j); lemma_bp_pow2(j);
+    lemma_bit_of_sum(val(s, j), a, h, 64 * j, r);
+}
+
+/// t differs from s only at limb j
+pub proof fn lemma_val_update(s: Seq<Limb>, t: Seq<Limb>, j: nat, n: nat)
+    requires j < n, forall|k: int| 0 <= k < n && k != j ==> s[k] == t[k]
+    ensures val(t, n) - val(s, n) == (t[j as int].0 as int - s[j as int].0 as int) * bp(j)
+    decreases n
+{
+    if n == j + 1 {
+        lemma_val_ext(s, t, j);
+        let a = s[j as int].0 as int; let b = t[j as int].0 as int; let p = bp(j);
+        assert((b - a) * p == b * p - a * p) by (nonlinear_arith);
+    } else {
+        lemma_val_update(s, t, j, (n - 1) as nat);
+        assert(s[n - 1] == t[n - 1]);
+    }
+}
+
+/// clearing / setting bit r of a word, at the integer level
+pub proof fn lemma_word_set_bit(x: u64, r: u32)
+    requires r < 64
+    ensures (1u64 << r) as int == p2(r as nat),
+        (x & !(1u64 << r)) as int == x as int - (if (x as int / p2(r as nat)) % 2 == 1 { p2(r as nat) } else { 0 }),
+        (x | (1u64 << r)) as int == x as int + (if (x as int / p2(r as nat)) % 2 == 1 { 0 } else { p2(r as nat) }),
+{
+    let m = 1u64 << r; let y = x >> r;
+    lemma_one_shl(r as u64);
+    assert(1u64 << r == 1u64 << (r as u64)) by (bit_vector) requires r < 64;
+    lemma_u64_shr_div(x, r);
+    assert(y % 2 == 1 ==> (x & !m) == x - m && (x | m) == x) by (bit_vector) requires y == x >> r, m == 1u64 << r, r < 64;
+    assert(y % 2 != 1 ==> (x & !m) == x && (x | m) == x + m) by (bit_vector) requires y == x >> r, m == 1u64 << r, r < 64;
+}
+
+/// value-level effect of replacing limb j (bit r cleared, then set to c)
+pub proof fn lemma_set_bit_value(s: Seq<Limb>, t: Seq<Limb>, n: nat, j: nat, r: nat, c: int)
+    requires j < n, r < 64, c == 0 || c == 1, forall|k: int| 0 <= k < n && k != j ==> s[k] == t[k],
+        t[j as int].0 as int == s[j as int].0 as int
+            - (if (s[j as int].0 as int / p2(r)) % 2 == 1 { p2(r) } else { 0 }) + (if c == 1 { p2(r) } else { 0 })
+    ensures val(t, n) == val(s, n) - ((val(s, n) / p2(64 * j + r)) % 2) * p2(64 * j + r) + c * p2(64 * j + r)
+{
+    let a = s[j as int].0 as int; let b = t[j as int].0 as int; let pr = p2(r); let p = bp(j); let pi = p2(64 * j + r);
+    let bit = (a / pr) % 2;
+    lemma_val_update(s, t, j, n);
+    lemma_val_bit(s, n, j, r);
+    lemma_bp_pow2(j); lemma_pow2_adds(64 * j, r);
+    assert(pi == p * pr);
+    assert(bit == 0 || bit == 1);
+    assert(b - a == (c - bit) * pr) by (nonlinear_arith)
+        requires bit == 0 || bit == 1, c == 0 || c == 1, b - a == (if c == 1 { pr } else { 0 }) - (if bit == 1 { pr } else { 0 });
+    assert((b - a) * p == c * pi - bit * pi) by (nonlinear_arith) requires b - a == (c - bit) * pr, pi == p * pr;
+}
+
+// ------------------------------------------------------------------------------------------------
+// shifts (BoxedUint::shl_vartime_into / shr_vartime_into / overflowing_shl_assign / overflowing_shr_assign, l8_boxed_methods.rs).
+// COPIES (made `pub`, unchanged) of private lemmas: lemma_or_is_add, lemma_shl_limbs, lemma_shr_limbs of l7_boxed_div.rs;
+// lemma_shift_up, lemma_shift_down, lemma_shl_limbs_mod, lemma_shl_finish, lemma_shl_rem0, lemma_shr_limbs_div, lemma_shl_compose,
+// lemma_shr_compose, lemma_one_shl32, lemma_ladder_step of l2_shift.rs.
+// ------------------------------------------------------------------------------------------------
+
+/// `(a << l) | (b >> (64-l))` has disjoint bit ranges, so the OR is a sum
+pub proof fn lemma_or_is_add(a: u64, b: u64, l: u32)
+    requires 0 < l < 64
+    ensures ((a << l) | (b >> ((64 - l) as u32))) as int == (a << l) as int + (b >> ((64 - l) as u32)) as int
+{
+    let r = (64 - l) as u32;
+    let x = a << l; let y = b >> r;
+    assert(x & y == 0) by (bit_vector) requires 0 < l < 64, r == (64 - l) as u32, x == a << l, y == b >> r;
+    assert((x | y) as int == x as int + y as int) by (bit_vector) requires x & y == 0;
+}
+
+/// t = s shifted left by l bits inside n limbs; the bits shifted out of the top limb are the carry
+pub proof fn lemma_shl_limbs(s: Seq<Limb>, t: Seq<Limb>, n: nat, l: u32)
+    requires 0 < l < 64, n >= 1, t[0].0 == s[0].0 << l,
+        forall|j: int| 1 <= j < n ==> t[j].0 == (s[j].0 << l) | (s[j - 1].0 >> ((64 - l) as u32)),
+    ensures val(t, n) + (s[n - 1].0 >> ((64 - l) as u32)) as int * bp(n) == val(s, n) * p2(l as nat),
+    decreases n
+{
+    let r = (64 - l) as u32;
+    let ps = p2(l as nat);
+    lemma_bp1();
+    if n == 1 {
+        lemma_limb_shl_split(s[0].0, l);
+        assert(val(t, 1) == val(t, 0) + t[0].0 as int * bp(0));
+        assert(val(s, 1) == val(s, 0) + s[0].0 as int * bp(0));
+        assert(val(t, 0) == 0 && val(s, 0) == 0);
+    } else {
+        let m = (n - 1) as nat;
+        lemma_shl_limbs(s, t, m, l);
+        lemma_limb_shl_split(s[m as int].0, l);
+        lemma_or_is_add(s[m as int].0, s[m - 1].0, l);
+        lemma_bp_succ(m);
+        let lo = (s[m as int].0 << l) as int; let hi = (s[m as int].0 >> r) as int; let hp = (s[m - 1].0 >> r) as int;
+        let pm = bp(m); let sm = s[m as int].0 as int; let tm = t[m as int].0 as int;
+        assert(tm == lo + hp);
+        assert(val(t, n) == val(t, m) + tm * pm);
+        assert(val(s, n) == val(s, m) + sm * pm);
+        assert(tm * pm + hi * (B() * pm) == hp * pm + (sm * ps) * pm) by (nonlinear_arith)
+            requires tm == lo + hp, lo + hi * B() == sm * ps;
+        assert((val(s, m) + sm * pm) * ps == val(s, m) * ps + (sm * ps) * pm) by (nonlinear_arith);
+    }
+}
+
+/// t[j] = (s[j] >> r) | (s[j+1] << (64-r)) for j < m: prefix relation
+pub proof fn lemma_shr_limbs(s: Seq<Limb>, t: Seq<Limb>, m: nat, r: u32)
+    requires 0 < r < 64,
+        forall|j: int| 0 <= j < m ==> t[j].0 == (s[j].0 >> r) | (s[j + 1].0 << ((64 - r) as u32)),
+    ensures p2(r as nat) * val(t, m) + p2(r as nat) * (s[m as int].0 >> r) as int * bp(m)
+            + (s[0].0 as int - p2(r as nat) * (s[0].0 >> r) as int) == val(s, m + 1),
+    decreases m
+{
+    let l = (64 - r) as u32;
+    let pr = p2(r as nat);
+    lemma_bp1();
+    if m == 0 {
+        assert(val(s, 1) == val(s, 0) + s[0].0 as int * bp(0));
+        assert(val(s, 0) == 0 && val(t, 0) == 0);
+        let h0 = (s[0].0 >> r) as int;
+        assert(pr * 0 + pr * h0 * 1 + (s[0].0 as int - pr * h0) == s[0].0 as int) by (nonlinear_arith);
+    } else {
+        let k = (m - 1) as nat;
+        lemma_shr_limbs(s, t, k, r);
+        let a = s[k as int].0; let b = s[m as int].0;
+        lemma_or_is_add(b, a, l);
+        assert((b << l) | (a >> r) == (a >> r) | (b << l)) by (bit_vector);
+        lemma_limb_shl_split(b, l);
+        lemma_pow2_adds(r as nat, l as nat);
+        lemma_pow2_64();
+        lemma_bp_succ(k);
+        let pl = p2(l as nat);
+        let ha = (a >> r) as int; let hb = (b >> r) as int; let lb = (b << l) as int;
+        let tk = t[k as int].0 as int; let pk = bp(k); let bi = b as int;
+        assert(tk == ha + lb);
+        assert(pr * pl == B());
+        assert(lb + hb * B() == bi * pl);
+        // pr * tk == pr*ha + B*(b - pr*hb)
+        assert(pr * tk == pr * ha + B() * (bi - pr * hb)) by (nonlinear_arith)
+            requires tk == ha + lb, lb + hb * B() == bi * pl, pr * pl == B();
+        assert(val(t, m) == val(t, k) + tk * pk);
+        assert(val(s, m + 1) == val(s, m) + bi * bp(m));
+        assert(pr * (val(t, k) + tk * pk) + pr * hb * (B() * pk) == pr * val(t, k) + pr * ha * pk + bi * (B() * pk)) by (nonlinear_arith)
+            requires pr * tk == pr * ha + B() * (bi - pr * hb);
+    }
+}
+
+/// t = s moved up by d limbs (low d limbs zero): val(t, d + m) == val(s, m) * B^d
+pub proof fn lemma_shift_up(s: Seq<Limb>, t: Seq<Limb>, d: nat, m: nat)
+    requires forall|j: int| 0 <= j < d ==> t[j].0 == 0, forall|j: int| 0 <= j < m ==> t[j + d] == s[j],
+    ensures val(t, d + m) == val(s, m) * bp(d),
+    decreases m
+{
+    if m > 0 {
+        lemma_shift_up(s, t, d, (m - 1) as nat);
+        lemma_bp_add((m - 1) as nat, d);
+        assert(t[m - 1 + d] == s[m - 1]);
+        let a = s[m - 1].0 as int;
+        assert((val(s, (m - 1) as nat) + a * bp((m - 1) as nat)) * bp(d) == val(s, (m - 1) as nat) * bp(d) + a * (bp((m - 1) as nat) * bp(d))) by (nonlinear_arith);
+        assert((d + m - 1) as nat == ((m - 1) + d) as nat);
+    } else { lemma_val_zero(t, d); assert(0 * bp(d) == 0); }
+}
+
+/// t = s moved down by d limbs: val(s, d + m) == val(s, d) + val(t, m) * B^d
+pub proof fn lemma_shift_down(s: Seq<Limb>, t: Seq<Limb>, d: nat, m: nat)
+    requires forall|j: int| 0 <= j < m ==> t[j] == s[j + d],
+    ensures val(s, d + m) == val(s, d) + val(t, m) * bp(d),
+    decreases m
+{
+    if m > 0 {
+        lemma_shift_down(s, t, d, (m - 1) as nat);
+        lemma_bp_add((m - 1) as nat, d);
+        assert(t[m - 1] == s[m - 1 + d]);
+        let a = t[m - 1].0 as int;
+        assert((val(t, (m - 1) as nat) + a * bp((m - 1) as nat)) * bp(d) == val(t, (m - 1) as nat) * bp(d) + a * (bp((m - 1) as nat) * bp(d))) by (nonlinear_arith);
+        assert((d + m - 1) as nat == ((m - 1) + d) as nat);
+    } else { assert(0 * bp(d) == 0); }
+}
+
+/// shifting left by 64*sn + rem modulo B^n only depends on the low n - sn limbs
+pub proof fn lemma_shl_limbs_mod(s: Seq<Limb>, n: nat, sn: nat, rem: nat, shift: nat)
+    requires sn < n, rem < 64, shift == 64 * sn + rem
+    ensures (val(s, n) * p2(shift)) % bp(n) == (val(s, (n - sn) as nat) * bp(sn) * p2(rem)) % bp(n)
+{
+    let m = (n - sn) as nat;
+    lemma_val_mod(s, m, n);
+    lemma_bp_succ(m);
+    lemma_fundamental_div_mod(val(s, n), bp(m));
+    let low = val(s, m); let hq = val(s, n) / bp(m);
+    lemma_bp_pow2(sn); lemma_pow2_adds(64 * sn, rem); lemma_pow2_pos(rem);
+    lemma_bp_add(m, sn); lemma_bp_succ(n);
+    let k = p2(rem);
+    assert((m + sn) as nat == n);
+    assert(val(s, n) * p2(shift) == low * bp(sn) * k + bp(n) * (hq * k)) by (nonlinear_arith)
+        requires val(s, n) == bp(m) * hq + low, p2(shift) == bp(sn) * k, bp(n) == bp(m) * bp(sn);
+    lemma_mod_multiples_vanish(hq * k, low * bp(sn) * k, bp(n));
+}
+
+/// the final step of a left shift: result limbs + spilled carry == surviving limbs shifted
+pub proof fn lemma_shl_finish(s: Seq<Limb>, res: int, c: int, n: nat, sn: nat, rem: nat, shift: nat)
+    requires sn < n, rem < 64, shift == 64 * sn + rem, 0 <= res < bp(n),
+        res + c * bp(n) == val(s, (n - sn) as nat) * bp(sn) * p2(rem)
+    ensures res == (val(s, n) * p2(shift)) % bp(n)
+{
+    let ww = bp(n);
+    assert(ww * c == c * ww) by (nonlinear_arith);
+    lemma_fundamental_div_mod_converse(val(s, (n - sn) as nat) * bp(sn) * p2(rem), ww, c, res);
+    lemma_shl_limbs_mod(s, n, sn, rem, shift);
+}
+
+/// limb-aligned left shift (rem == 0): kept out of the big function context, where the same three steps were flaky
+pub proof fn lemma_shl_rem0(s: Seq<Limb>, p1: Seq<Limb>, n: nat, sn: nat, shift: nat)
+    requires sn < n, shift == 64 * sn, val(p1, n) == val(s, (n - sn) as nat) * bp(sn)
+    ensures val(p1, n) == (val(s, n) * p2(shift)) % bp(n)
+{
+    let x = val(p1, n);
+    lemma_pow2_64(); lemma_val_bound(p1, n);
+    assert(p2(0) == 1) by { lemma2_to64(); }
+    assert(x + 0 * bp(n) == val(s, (n - sn) as nat) * bp(sn) * p2(0)) by (nonlinear_arith)
+        requires x == val(s, (n - sn) as nat) * bp(sn), p2(0) == 1;
+    lemma_shl_finish(s, x, 0, n, sn, 0, shift);
+}
+
+/// dividing by 2^(64*sn + rem) drops the low sn limbs, then divides by 2^rem
+pub proof fn lemma_shr_limbs_div(v: int, lo: int, hi: int, sn: nat, rem: nat, shift: nat)
+    requires v == lo + hi * bp(sn), 0 <= lo < bp(sn), hi >= 0, shift == 64 * sn + rem
+    ensures v / p2(shift) == hi / p2(rem), rem == 0 ==> v / p2(shift) == hi
+{
+    lemma_bp_pow2(sn); lemma_pow2_adds(64 * sn, rem); lemma_pow2_pos(rem); lemma_bp_succ(sn);
+    assert(bp(sn) * hi == hi * bp(sn)) by (nonlinear_arith);
+    lemma_fundamental_div_mod_converse(v, bp(sn), hi, lo);
+    assert(v >= 0) by (nonlinear_arith) requires v == lo + hi * bp(sn), lo >= 0, hi >= 0, bp(sn) > 0;
+    lemma_div_denominator(v, bp(sn), p2(rem));
+    lemma_pow2_64();
+    if rem == 0 { assert(hi / 1 == hi); }
+}
+
+/// ((x * 2^a) mod w) * 2^b mod w == x * 2^(a+b) mod w
+pub proof fn lemma_shl_compose(x: int, a: nat, b: nat, w: int)
+    requires w > 0
+    ensures (((x * p2(a)) % w) * p2(b)) % w == (x * p2(a + b)) % w
+{
+    lemma_pow2_adds(a, b);
+    lemma_mul_mod_noop_left(x * p2(a), p2(b), w);
+    assert((x * p2(a)) * p2(b) == x * (p2(a) * p2(b))) by (nonlinear_arith);
+}
+
+/// (x / 2^a) / 2^b == x / 2^(a+b)
+pub proof fn lemma_shr_compose(x: int, a: nat, b: nat)
+    requires x >= 0
+    ensures (x / p2(a)) / p2(b) == x / p2(a + b)
+{
+    lemma_pow2_adds(a, b); lemma_pow2_pos(a); lemma_pow2_pos(b);
+    lemma_div_denominator(x, p2(a), p2(b));
+}
+
+pub proof fn lemma_one_shl32(n: u32)
+    requires n < 32
+    ensures (1u32 << n) as int == p2(n as nat), p2(n as nat) <= 0x8000_0000
+{
+    lemma_u32_pow2_no_overflow(n as nat);
+    lemma_u32_shl_is_mul(1, n);
+    lemma2_to64();
+    if n < 31 { lemma_pow2_strictly_increases(n as nat, 31); }
+}
+
+/// one rung of the constant-time shift ladder: bit i of s extends s mod 2^i to s mod 2^(i+1)
+pub proof fn lemma_ladder_step(s: u32, i: u32)
+    requires i < 32
+    ensures ((s >> i) & 1u32) <= 1, (1u32 << i) as int == p2(i as nat),
+        (s as int) % p2((i + 1) as nat) == (s as int) % p2(i as nat) + ((s >> i) & 1u32) as int * p2(i as nat),
+{
+    lemma_one_shl32(i);
+    lemma_u32_shr_is_div(s, i);
+    let q = s >> i; let b = q & 1u32;
+    assert(b <= 1 && b == q % 2) by (bit_vector) requires b == q & 1u32;
+    let pi = p2(i as nat);
+    lemma_pow2_pos(i as nat);
+    lemma_pow2_adds(i as nat, 1); lemma2_to64();
+    lemma_fundamental_div_mod(s as int, pi); lemma_mod_bound(s as int, pi);
+    let r = s as int % pi; let q2 = q as int / 2;
+    assert(s as int == (2 * pi) * q2 + (b as int * pi + r)) by (nonlinear_arith) requires s as int == pi * (q as int) + r, q as int == 2 * q2 + b as int;
+    assert(b as int * pi + r < 2 * pi) by (nonlinear_arith) requires b <= 1, 0 <= r < pi;
+    assert(b as int * pi >= 0) by (nonlinear_arith) requires b >= 0, pi > 0;
+    lemma_fundamental_div_mod_converse(s as int, 2 * pi, q2, b as int * pi + r);
+}
 
 } // verus!
